@@ -69,6 +69,17 @@ def fs_event(kind, path, extra=None):
     rel = proc.sim.sandbox.rel(path)
     proc.trace.append((kind, rel, extra))
     proc.sim.log.add(proc.pid, kind, [rel, extra])
+    # a fault may also be addressed as "the k-th event of this kind"
+    kc = proc.__dict__.setdefault('kind_counts', {})
+    k = kc.get(kind, 0)
+    kc[kind] = k + 1
+    f = proc.fault
+    if f and not proc.dead and f.get('at') == 'kind' \
+            and f.get('name') == kind and f.get('event') == k:
+        arm_next(proc, f)
+        proc.fired.append({kk: v for kk, v in f.items() if kk != 'then'})
+        proc.sim.count_fault(f['kind'] + ':' + kind)
+        return proc, f
     return proc, match_fault(proc, 'io', idx)
 
 
